@@ -104,6 +104,9 @@ def run(ctx):
     # cumulative counter (reset at the start of the step), so every fill must reach that counter (rule shared with C03)
     from . import c03
     tw = m.trade_writers()
+    # .. and "the trades time-stamped within step j" are the trades executed in step j: every trade carries the book clock at
+    # execution (rule shared with C03)
+    c03.record_time_rules(ctx, m, rule="trade-time")
     if len(tw) == 1:
         c03.fill_flow(ctx, m, tw[0][0], rule="traded-volume-counter")
     else:
